@@ -1,9 +1,8 @@
 /-
-  C01 (continued) — the remaining stensor operations of the anchored files with a 3×3 matrix meaning:
-  stress conversions with the stretch tensor, adjugate (determinant derivative) and its deviatoric
-  variant, unary minus, stensor*stensor product, `abs`, `exportToBaseTypeArray`, the scalar-argument
-  overload of `buildFromEigenValuesAndVectors`, the logarithm / positive part / negative part builders,
-  the static `computeIsotropicFunction` overloads and the closed-form 1D isotropic functions.
+  C01 (continued) — further stensor operations of the anchored files with a 3×3 matrix meaning:
+  adjugate (computeDeterminantDerivative) and its deviatoric variant, unary minus, stensor*stensor product,
+  `abs`, `exportToBaseTypeArray`, and the 3D convertSecondPiolaKirchhoffStressToCorotationnalCauchyStress.
+  (Props3: the other stress conversions; Props4: spectral builders and closed-form 1D isotropic functions.)
   `Gen2.*` is regenerated on every run from harness/C01/trace2.cxx.
 -/
 import TfelVerif.Common.M3
